@@ -11,7 +11,7 @@ writes every fixed-width conversion the code performs explicitly:
 * the kept decision record (`cache.keptTraceCacheEntry.rate`) keeps the rate at full `uint` width
 * an `int64` metadata field of `types.Payload` is *absent* exactly when it holds 0 → `metaInt`
 * the samplers' floor: `deterministic.go` (`sampleRate <= 1 ⇒ 1`), `dynamic.go` & co
-  (`uint(dynsampler rate)`, `< 1 ⇒ 1`), `rules.go` (`keep` requires `rule.SampleRate > 0`)
+  (dynsampler answer `< 1 ⇒ 1`, then `uint`), `rules.go` (`keep` requires `rule.SampleRate > 0`)
 -/
 namespace Refinery.Model.Rates
 
@@ -68,12 +68,9 @@ def merge (client traceRate : Nat) (dry : Bool) : Merged :=
 def deterministicRate (cfg : Int) : Nat := if cfg ≤ 1 then 1 else uintOfInt cfg
 
 /-- dynamic / EMA dynamic / EMA throughput / total throughput / windowed throughput:
-`rate = uint(dynsampler.GetSampleRateMulti(..)); if rate < 1 { rate = 1 }`. -/
-def dynRate (r : Int) : Nat := if uintOfInt r < 1 then 1 else uintOfInt r
-
-/-- `DynamicSampler.GetSampleRate` as a whole: after the floor it draws `rand.Intn(int(rate))`,
-which panics when `int(rate) ≤ 0` (a dynsampler answering a negative number). -/
-def dynOutcome (r : Int) : Option Nat := if toInt64 (dynRate r) ≤ 0 then none else some (dynRate r)
+`answer := dynsampler.GetSampleRateMulti(..); if answer < 1 { answer = 1 }; rate = uint(answer)`
+(the floor is applied to the `int`, before the conversion, so a negative answer gives 1). -/
+def dynRate (r : Int) : Nat := if r < 1 then 1 else uintOfInt r
 
 /-- rules sampler, rule without downstream sampler: `rate = uint(rule.SampleRate)`,
 `keep = !rule.Drop && rule.SampleRate > 0 && rand.Intn(rule.SampleRate) == 0` (`draw` is the
